@@ -95,6 +95,26 @@ func c14Join(p []string) string {
 	return strings.Join(p, ",")
 }
 
+// c14Trim drops the common prefix and suffix of two long lists so that a report shows the differing part
+func c14Trim(got, want []string) (string, string) {
+	if len(got) <= 10 && len(want) <= 10 {
+		return c14Join(got), c14Join(want)
+	}
+	p := 0
+	for p < len(got) && p < len(want) && got[p] == want[p] {
+		p++
+	}
+	q := 0
+	for q < len(got)-p && q < len(want)-p && got[len(got)-1-q] == want[len(want)-1-q] {
+		q++
+	}
+	f := func(l []string) string {
+		mid := l[p : len(l)-q]
+		return fmt.Sprintf("[%d equal] %s [%d equal]", p, c14Join(mid), q)
+	}
+	return f(got), f(want)
+}
+
 func c14EqStrs(a, b []string) bool {
 	if len(a) != len(b) {
 		return false
@@ -175,21 +195,15 @@ func (r *c14Reporter) report(kind, input, observed, expected string) {
 
 // kinds used by one pass over the four views
 type c14Kinds struct {
-	day, month, year                string
-	tgtMissing, tgtExtra, tgtOrder  string
-	fixedInput                      string // if non-empty: used as input of every report, the key goes into observed
+	day, month, year               string
+	tgtMissing, tgtExtra, tgtOrder string
 }
 
-func (k c14Kinds) in(key string) (input, prefix string) {
-	if k.fixedInput != "" {
-		return k.fixedInput, key + ": "
-	}
-	return key, ""
-}
-
-// checkViews compares all four views (and their string-keyed twins) with the expected record list
-// (sorted by day, one record per day). Returns the number of evaluations.
-func c14CheckViews(rep *c14Reporter, exp []c14Rec, names []string, years []int, kinds c14Kinds, extraTargets []string) int {
+// c14CheckViews compares all four views (and their string-keyed twins) with the expected record list
+// (sorted by day, one record per day). Every mismatch goes to sink with its category
+// ("day", "month", "year", "target"), kind, key (the queried day / month / year / target), observed and
+// expected. Returns the number of evaluations.
+func c14CheckViews(sink func(cat, kind, key, observed, expected string), exp []c14Rec, names []string, years []int, kinds c14Kinds, extraTargets []string) int {
 	count := 0
 	byDay := map[string]c14Rec{}
 	byMonth := map[string][]string{}
@@ -202,29 +216,27 @@ func c14CheckViews(rep *c14Reporter, exp []c14Rec, names []string, years []int, 
 		byYear[r.day[0:4]] = append(byYear[r.day[0:4]], s)
 		byTarget[r.target] = append(byTarget[r.target], s)
 	}
-	guard := func(kind, key string, f func()) {
+	guard := func(cat, kind, key string, f func()) {
 		count++
 		defer func() {
 			if e := recover(); e != nil {
-				in, pre := kinds.in(key)
-				rep.report(kind, in, pre+fmt.Sprintf("panic: %v", e), "no panic")
+				sink(cat, kind, key, fmt.Sprintf("panic: %v", e), "no panic")
 			}
 		}()
 		f()
 	}
-	cmpList := func(kind, key, via string, got []string, want []string) {
+	cmpList := func(cat, kind, key, via string, got []string, want []string) {
 		if !c14EqStrs(got, want) {
-			in, pre := kinds.in(key)
-			rep.report(kind, in, pre+via+" = "+c14Join(got), c14Join(want))
+			g, w := c14Trim(got, want)
+			sink(cat, kind, key, via+" = "+g, w)
 		}
 	}
 	cmpTarget := func(key, via string, got []string, want []string) {
 		if c14EqStrs(got, want) {
 			return
 		}
-		in, pre := kinds.in(key)
 		if c14SameSet(got, want) {
-			rep.report(kinds.tgtOrder, in, pre+via+" = "+c14Join(got), c14Join(want))
+			sink("target", kinds.tgtOrder, key, via+" = "+c14Join(got), c14Join(want))
 			return
 		}
 		// missing or extra?
@@ -244,39 +256,40 @@ func c14CheckViews(rep *c14Reporter, exp []c14Rec, names []string, years []int, 
 		if missing {
 			kind = kinds.tgtMissing
 		}
-		rep.report(kind, in, pre+via+" = "+c14Join(got), c14Join(want))
+		sink("target", kind, key, via+" = "+c14Join(got), c14Join(want))
 	}
 	checkTarget := func(y, m, d int) {
 		key := c14Key(y, m, d)
 		dk := c14Dash(key)
 		want := byTarget[key]
-		guard(kinds.tgtMissing, dk, func() {
+		guard("target", kinds.tgtMissing, dk, func() {
 			cmpTarget(dk, "GetHolidaysByTargetYmd", c14ListStrs(HolidayUtil.GetHolidaysByTargetYmd(y, m, d)), want)
 		})
-		guard(kinds.tgtMissing, dk, func() {
+		guard("target", kinds.tgtMissing, dk, func() {
 			cmpTarget(dk, "GetHolidaysByTarget(dashed)", c14ListStrs(HolidayUtil.GetHolidaysByTarget(dk)), want)
 		})
-		guard(kinds.tgtMissing, dk, func() {
+		guard("target", kinds.tgtMissing, dk, func() {
 			cmpTarget(dk, "GetHolidaysByTarget(plain)", c14ListStrs(HolidayUtil.GetHolidaysByTarget(key)), want)
 		})
 	}
 	for _, y := range years {
+		y := y
 		ykey := fmt.Sprintf("%04d", y)
-		guard(kinds.year, ykey, func() {
-			cmpList(kinds.year, ykey, "GetHolidaysByYear", c14ListStrs(HolidayUtil.GetHolidaysByYear(y)), byYear[ykey])
+		guard("year", kinds.year, ykey, func() {
+			cmpList("year", kinds.year, ykey, "GetHolidaysByYear", c14ListStrs(HolidayUtil.GetHolidaysByYear(y)), byYear[ykey])
 		})
-		guard(kinds.year, ykey, func() {
-			cmpList(kinds.year, ykey, "GetHolidays(year)", c14ListStrs(HolidayUtil.GetHolidays(ykey)), byYear[ykey])
+		guard("year", kinds.year, ykey, func() {
+			cmpList("year", kinds.year, ykey, "GetHolidays(year)", c14ListStrs(HolidayUtil.GetHolidays(ykey)), byYear[ykey])
 		})
 		for m := 1; m <= 12; m++ {
 			m := m
 			mkey := fmt.Sprintf("%04d%02d", y, m)
 			mdash := fmt.Sprintf("%04d-%02d", y, m)
-			guard(kinds.month, mdash, func() {
-				cmpList(kinds.month, mdash, "GetHolidaysByYm", c14ListStrs(HolidayUtil.GetHolidaysByYm(y, m)), byMonth[mkey])
+			guard("month", kinds.month, mdash, func() {
+				cmpList("month", kinds.month, mdash, "GetHolidaysByYm", c14ListStrs(HolidayUtil.GetHolidaysByYm(y, m)), byMonth[mkey])
 			})
-			guard(kinds.month, mdash, func() {
-				cmpList(kinds.month, mdash, "GetHolidays(month)", c14ListStrs(HolidayUtil.GetHolidays(mdash)), byMonth[mkey])
+			guard("month", kinds.month, mdash, func() {
+				cmpList("month", kinds.month, mdash, "GetHolidays(month)", c14ListStrs(HolidayUtil.GetHolidays(mdash)), byMonth[mkey])
 			})
 			for d := 1; d <= 31; d++ {
 				d := d
@@ -292,19 +305,18 @@ func c14CheckViews(rep *c14Reporter, exp []c14Rec, names []string, years []int, 
 					wantL = []string{want}
 				}
 				one := func(via string, f func() *HolidayUtil.Holiday) {
-					guard(kinds.day, dk, func() {
+					guard("day", kinds.day, dk, func() {
 						got := c14HolStr(f())
 						if got != want {
-							in, pre := kinds.in(dk)
-							rep.report(kinds.day, in, pre+via+" = "+got, want)
+							sink("day", kinds.day, dk, via+" = "+got, want)
 						}
 					})
 				}
 				one("GetHolidayByYmd", func() *HolidayUtil.Holiday { return HolidayUtil.GetHolidayByYmd(y, m, d) })
 				one("GetHoliday(dashed)", func() *HolidayUtil.Holiday { return HolidayUtil.GetHoliday(dk) })
 				one("GetHoliday(plain)", func() *HolidayUtil.Holiday { return HolidayUtil.GetHoliday(key) })
-				guard(kinds.day, dk, func() {
-					cmpList(kinds.day, dk, "GetHolidays(day)", c14ListStrs(HolidayUtil.GetHolidays(dk)), wantL)
+				guard("day", kinds.day, dk, func() {
+					cmpList("day", kinds.day, dk, "GetHolidays(day)", c14ListStrs(HolidayUtil.GetHolidays(dk)), wantL)
 				})
 				checkTarget(y, m, d)
 			}
@@ -413,21 +425,29 @@ func searchC14() {
 	}
 	pristine := c14Kinds{day: "day-view", month: "month-view", year: "year-view",
 		tgtMissing: "target-view-missing", tgtExtra: "target-view-extra", tgtOrder: "target-view-order"}
-	count += c14CheckViews(rep, sorted, names, myYears, pristine, nil)
-	// every target date of the table (whatever year it lies in) is handled by the shard owning its year;
-	// targets outside 2001..lastYear+1 would be missed, so add them explicitly
+	// silent pass over all years: which keys already disagree on the built-in table (every shard needs this
+	// to keep the fix-up checks below from re-reporting a defect of the built-in table under a fix-up kind)
+	var allYears []int
+	for y := 2001; y <= lastYear+1; y++ {
+		allYears = append(allYears, y)
+	}
 	var extra []string
 	seenT := map[string]bool{}
 	for _, r := range sorted {
 		var y int
 		fmt.Sscanf(r.target[0:4], "%d", &y)
-		if (y < 2001 || y > lastYear+1) && !seenT[r.target] && shardI == 0 {
+		if (y < 2001 || y > lastYear+1) && !seenT[r.target] {
 			seenT[r.target] = true
 			extra = append(extra, r.target)
 		}
 	}
-	if len(extra) > 0 {
-		count += c14CheckViews(rep, sorted, names, nil, pristine, extra)
+	baseBad := map[string]bool{}
+	c14CheckViews(func(cat, kind, key, observed, expected string) { baseBad[cat+"|"+key] = true }, sorted, names, allYears, pristine, extra)
+	// reporting pass: this shard's years (targets outside 2001..lastYear+1 go to shard 0)
+	direct := func(cat, kind, key, observed, expected string) { rep.report(kind, key, observed, expected) }
+	count += c14CheckViews(direct, sorted, names, myYears, pristine, nil)
+	if len(extra) > 0 && shardI == 0 {
+		count += c14CheckViews(direct, sorted, names, nil, pristine, extra)
 	}
 
 	// ---------- 2. workday stepping and pay rate ----------
@@ -653,22 +673,22 @@ func searchC14() {
 
 	// ---------- 3. fix-ups ----------
 	fixes := []c14Fix{
-		{calls: []string{"209912310120991231"}},                                       // add a day later than everything
-		{calls: []string{"200101010020010101"}},                                       // add a day earlier than everything
-		{calls: []string{"202001020120200101"}},                                       // add a day in the middle of a recorded month
-		{calls: []string{"202606010120260601"}},                                       // add a later day in a year without records
-		{calls: []string{"202001011020200101"}},                                       // replace an existing record (name and flag)
-		{calls: []string{"202001250120200124"}},                                       // replace an existing record (target moves)
-		{calls: []string{"20200101~000000000"}},                                       // remove one
-		{calls: []string{"20990101~000000000"}},                                       // remove a day that has no record
+		{calls: []string{"209912310120991231"}},                                               // add a day later than everything
+		{calls: []string{"200101010020010101"}},                                               // add a day earlier than everything
+		{calls: []string{"202001020120200101"}},                                               // add a day in the middle of a recorded month
+		{calls: []string{"202606010120260601"}},                                               // add a later day in a year without records
+		{calls: []string{"202001011020200101"}},                                               // replace an existing record (name and flag)
+		{calls: []string{"202001250120200124"}},                                               // replace an existing record (target moves)
+		{calls: []string{"20200101~000000000"}},                                               // remove one
+		{calls: []string{"20990101~000000000"}},                                               // remove a day that has no record
 		{calls: []string{"20191001~000000000" + "202210010120221001" + "209912310120991231"}}, // several in one call
-		{calls: []string{"202001011020200101", "20200101~000000000"}},                 // replace, then remove
-		{calls: []string{"209912300120991231", "209912310120991231"}},                 // two adds in date order, two calls
-		{calls: []string{"209912300120991231" + "209912310120991231"}},                // two adds in date order, one call
-		{calls: []string{"209912310120991231", "209912300120991231"}},                 // two adds, second earlier
-		{calls: []string{"209912310120991231", "209912311020991231"}},                 // add, then replace the added record
-		{calls: []string{"209912310120991231", "20991231~000000000"}},                 // add, then remove the added record
-		{calls: []string{"20011229~000000000", "200112290020020101"}},                 // remove the first record, then add it back
+		{calls: []string{"202001011020200101", "20200101~000000000"}},                         // replace, then remove
+		{calls: []string{"209912300120991231", "209912310120991231"}},                         // two adds in date order, two calls
+		{calls: []string{"209912300120991231" + "209912310120991231"}},                        // two adds in date order, one call
+		{calls: []string{"209912310120991231", "209912300120991231"}},                         // two adds, second earlier
+		{calls: []string{"209912310120991231", "209912311020991231"}},                         // add, then replace the added record
+		{calls: []string{"209912310120991231", "20991231~000000000"}},                         // add, then remove the added record
+		{calls: []string{"20011229~000000000", "200112290020020101"}},                         // remove the first record, then add it back
 		{calls: []string{"209912310120991231" + "209912311020991231"}, kind: "fix-same-day-twice-in-one-call"},
 	}
 	// seeded random histories on existing records (replace / remove / add around them)
@@ -692,10 +712,6 @@ func searchC14() {
 			r2 := sorted[rng.Intn(len(sorted))]
 			fixes = append(fixes, c14Fix{calls: []string{repl + r2.day + "~" + "000000000", "209901010120990101"}})
 		}
-	}
-	var allYears []int
-	for y := 2001; y <= lastYear+1; y++ {
-		allYears = append(allYears, y)
 	}
 	nUnsorted := 0
 	for fi, fx := range fixes {
@@ -750,8 +766,25 @@ func searchC14() {
 				}
 			}
 			// the target-order kind is kept apart: the statement promises date order for month and year results only
-			k := c14Kinds{day: kind, month: kind, year: kind, tgtMissing: kind, tgtExtra: kind, tgtOrder: kind + "-target-order", fixedInput: input}
-			count += c14CheckViews(rep, exp, names, years, k, extraT)
+			// targets whose records are not adjacent in the expected (date-ordered) list
+			nonContig := map[string]bool{}
+			lastPos := map[string]int{}
+			for i, r := range exp {
+				if p, have := lastPos[r.target]; have && p != i-1 {
+					nonContig[r.target] = true
+				}
+				lastPos[r.target] = i
+			}
+			k := c14Kinds{day: kind, month: kind, year: kind, tgtMissing: kind, tgtExtra: kind, tgtOrder: kind + "-target-order"}
+			count += c14CheckViews(func(cat, kd, key, observed, expected string) {
+				if baseBad[cat+"|"+key] {
+					return // this key is already wrong on the built-in table and reported under its own kind
+				}
+				if cat == "target" && kd == kind && nonContig[strings.Replace(key, "-", "", -1)] {
+					kd = "fix-target-noncontiguous" // same mechanism as target-view-missing, brought about by the fix-up
+				}
+				rep.report(kd, input, cat+" view of "+key+": "+observed, expected)
+			}, exp, names, years, k, extraT)
 		}()
 	}
 	HolidayUtil.VerifReset()
